@@ -290,6 +290,7 @@ func (in *Interp) ensureInit(p *ssa.Package) {
 			return
 		}
 	}
+	p.Build() // packages other than the harness's are built lazily; without this the first path would skip their init
 	initFn := p.Func("init")
 	if initFn == nil || initFn.Blocks == nil {
 		return
@@ -961,6 +962,11 @@ func (in *Interp) lookupMethod(iv Iface, m *types.Func) FuncV {
 			}}
 		}
 		if m.Name() == "Error" || m.Name() == "String" {
+			if eo := in.errObjOf(iv); eo != nil && m.Name() == "Error" {
+				// engine-made error (fmt.Errorf, grpc status): its real message
+				msg := eo.msg
+				return FuncV{Native: func(in *Interp, args []Value) Value { return msg }}
+			}
 			if s, ok := iv.V.(Str); ok {
 				return FuncV{Native: func(in *Interp, args []Value) Value { return s }}
 			}
